@@ -224,29 +224,32 @@ Proof.
                              /\ 0 <= a <= 255).
     { destruct ipsec.
       - destruct (get_uint max8 s1 10) as [[a s2]| |] eqn:Ea; cbn [bind] in H; try discriminate.
-        exists a, s2. split; [reflexivity|]. unfold get_uint, as_uint in Ea.
-        destruct (get_unescaped s1) as [[t s3]| |]; cbn [bind fst snd] in Ea; try discriminate.
-        destruct (as_int t 10) as [z| |]; cbn [bind fst snd] in Ea; try discriminate.
-        destruct ((z <? 0) || (z >? max8)) eqn:E; cbn [bind fst snd] in Ea; try discriminate. inversion Ea; subst.
-        unfold max8 in E. lia.
+        exists a, s2. split; [reflexivity|]. pose proof (get_uint_range _ _ _ _ Ea) as G. unfold max8 in G. lia.
       - destruct (g >? 127); cbn [bind] in H; try discriminate. exists 0, s1. split; [reflexivity|lia]. }
     destruct Ha as (a & s2 & Ea & Har). rewrite Ea in H. cbn [bind fst snd] in H.
-    destruct ((g =? 0) || (g =? 1) || (g =? 2)) eqn:E012.
-    + destruct (get_string s2 0) as [[t s3]| |]; cbn [bind fst snd] in H; try discriminate. inversion H; subst.
-      cbn [ctor_field] in Hc.
-      destruct (g =? 0) eqn:E0.
-      { destruct (zlist_eqb t [46]); try discriminate. inversion Hc; subst. cbn [wire_extra]. repeat split; lia. }
-      destruct (g =? 1) eqn:E1.
-      { destruct (ipv4_aton t) as [b| |] eqn:Eb; cbn [bind] in Hc; try discriminate. inversion Hc; subst. cbn [wire_extra].
-        split; [lia|]. split; [lia|]. left. split; [lia|]. exists b. exact Eb. }
-      destruct (g =? 2) eqn:E2; [|cbn [orb] in E012; discriminate].
-      destruct (ipv6_aton t) as [b| |] eqn:Eb; cbn [bind] in Hc; try discriminate. inversion Hc; subst. cbn [wire_extra].
-      split; [lia|]. split; [lia|]. right. split; [lia|]. exists b. exact Eb.
-    + destruct (g =? 3) eqn:E3; [|discriminate].
-      destruct (get_name c s2) as [[n s3]| |] eqn:En; cbn [bind fst snd] in H; try discriminate. inversion H; subst.
-      cbn [ctor_field] in Hc. apply orb_false_iff in E012 as [E01 E2]. apply orb_false_iff in E01 as [E0 E1].
-      rewrite E0, E1, E2, E3 in Hc. inversion Hc; subst. cbn [wire_extra].
-      split; [lia|]. split; [lia|]. split; [lia|]. eapply get_name_valid; eauto.
+    assert (Hv : exists gw, gw_check g a gw = Ok raw /\ match gw with GwName n => Valid n | _ => True end).
+    { destruct ((g =? 0) || (g =? 1) || (g =? 2)).
+      - destruct (get_string s2 0) as [[t s3]| |]; cbn [bind fst snd] in H; try discriminate.
+        destruct (gw_check g a (GwText t)) as [r| |] eqn:Ec; cbn [bind] in H; try discriminate. inversion H; subst.
+        exists (GwText t). split; [exact Ec|exact Logic.I].
+      - destruct (g =? 3); [|discriminate].
+        destruct (get_name c s2) as [[n s3]| |] eqn:En; cbn [bind fst snd] in H; try discriminate.
+        destruct (gw_check g a (GwName n)) as [r| |] eqn:Ec; cbn [bind] in H; try discriminate. inversion H; subst.
+        exists (GwName n). split; [exact Ec|eapply get_name_valid; eauto]. }
+    destruct Hv as (gw & Ec & Hn). cbn [ctor_field] in Hc. inversion Hc; subst v. clear Hc.
+    unfold gw_check in Ec.
+    destruct (g =? 0) eqn:E0.
+    { destruct gw as [|t|n]; try discriminate. destruct (zlist_eqb t [46]); try discriminate. inversion Ec; subst. cbn [wire_extra].
+      repeat split; lia. }
+    destruct (g =? 1) eqn:E1.
+    { destruct gw as [|t|n]; try discriminate. destruct (ipv4_aton t) as [b| |] eqn:Eb; cbn [bind] in Ec; try discriminate.
+      inversion Ec; subst. cbn [wire_extra]. split; [lia|]. split; [lia|]. left. split; [lia|]. exists b. exact Eb. }
+    destruct (g =? 2) eqn:E2.
+    { destruct gw as [|t|n]; try discriminate. destruct (ipv6_aton t) as [b| |] eqn:Eb; cbn [bind] in Ec; try discriminate.
+      inversion Ec; subst. cbn [wire_extra]. split; [lia|]. split; [lia|]. right. split; [lia|]. exists b. exact Eb. }
+    destruct (g =? 3) eqn:E3; [|discriminate].
+    destruct gw as [|t|n]; try discriminate. inversion Ec; subst. cbn [wire_extra].
+    split; [lia|]. split; [lia|]. split; [lia|exact Hn].
   - (* FSvcbRec *)
     destruct (svcb_from_text c st) as [[[[p n] ps] s4]| |] eqn:E; cbn [bind] in H; try discriminate. inversion H; subst.
     cbn [ctor_field] in Hc. inversion Hc; subst. cbn [wire_extra].
